@@ -15,7 +15,31 @@ CHECKS = {
         'note': 'Trusted: pmc/ref/grammar.py + pmc/ref/lexer.py as transcription of docs/notation.rst and docs/serialization.rst; small-scope hypothesis beyond the bounds; position with zero tokens and metadata segmentation for ":::"/duplicate keys are not asserted.',
         'design_ref': 'DESIGN.md section 4 C07',
     },
+    'C01': {
+        'technique': 'bounded-exhaustive enumeration of trees x formatting options and of all accepted input strings (explicit-state, real formatter/parser)',
+        'text': 'Every decoration of every tree shape within (3 nodes, 2 branches) over a wide alphabet, (3,3)/(3,4) over a mid alphabet and (4,4)/(4,5) over a narrow one (including empty nodes, missing concepts/targets, anonymous roles, strings with delimiters and escapes, alignments everywhere), crossed with 7 metadata variants, 5 indent values and both compact settings, is formatted and parsed back by the real code; every accepted string up to length 5/6 over 16 characters and every accepted token sequence up to length 7/8 is checked to be a fixed point of parse-then-format. Token sequences of the 10 texts are compared with the reference lexer.',
+        'note': 'Trusted: pmc/ref/lexer.py for the whitespace-only clause; small-scope hypothesis beyond the bounds; non-str atoms and metadata that a comment cannot express are outside the statement.',
+        'design_ref': 'DESIGN.md section 4 C01',
+    },
+    'C02': {
+        'technique': 'bounded-exhaustive enumeration of well-formed trees x models, round trip through the real interpret/configure and decode/encode',
+        'text': 'Every well-formed tree (precondition decided by the reference interpretation) within the stated node/branch/depth bounds over wide, mid, narrow and model-specific alphabets is interpreted and configured back under DEFAULT, AMR, NOOP, MINI and 16 TINY role tables; the resulting tree must equal the original with empty concept slots dropped, metadata kept, and encode(decode(text)) must be the normal-form text.',
+        'note': 'Trusted: pmc/ref/interp.py and pmc/ref/roles.py for the well-formedness precondition only (the oracle itself is tree equality); small-scope hypothesis.',
+        'design_ref': 'DESIGN.md section 4 C02',
+    },
+    'C04': {
+        'technique': 'bounded-exhaustive enumeration of (also ill-formed) trees x models against a reference interpretation written from the docs',
+        'text': 'Every decoration of every tree shape within the bounds, including duplicate definitions, duplicate triples, over-inverted roles, empty nodes and alignments on every position, is interpreted by the real code under DEFAULT, AMR, NOOP and MINI and compared triple-by-triple (order, top, variables, both alignment maps) with an independent reference interpretation; a text-level family with non-ASCII separators, VT, FF and FS inside tokens is decoded end to end.',
+        'note': 'Trusted: pmc/ref/interp.py, pmc/ref/roles.py as transcription of docs/notation.rst and docs/structures.rst; alignment of duplicated triples not asserted; small-scope hypothesis.',
+        'design_ref': 'DESIGN.md section 4 C04',
+    },
+    'C14': {
+        'technique': 'bounded-exhaustive enumeration of well-formed trees x models; diagnostics compared with the side table of the reference interpretation',
+        'text': 'For every well-formed tree within the bounds the real node_contexts, get_pushed_variable and appears_inverted are evaluated on the decoded graph and compared, triple by triple, with the node that wrote the triple, the nested node its branch opened and the written-inverted flag recorded by the reference interpretation; the same triple lists are re-checked as marker-less graphs (no exception, unknown/boolean answers).',
+        'note': 'Trusted: pmc/ref/interp.py; on marker-less graphs only totality and answer types are asserted; small-scope hypothesis.',
+        'design_ref': 'DESIGN.md section 4 C14',
+    },
 }
 
 NOT_APPLICABLE = {k: _PENDING for k in
-                  ['C01', 'C02', 'C03', 'C04', 'C05', 'C06', 'C09', 'C10', 'C11', 'C12', 'C13', 'C14', 'C15', 'C16', 'C17', 'C18', 'C19', 'C20']}
+                  ['C03', 'C05', 'C06', 'C09', 'C10', 'C11', 'C12', 'C13', 'C15', 'C16', 'C17', 'C18', 'C19', 'C20']}
